@@ -145,6 +145,14 @@ def actor (op : List String) : String :=
     | _ => ""
   | _ => ""
 
+/-- the instance number of the process thread that ran in this step (`s run proc:X#n`) -/
+def actorSeq (op : List String) : Nat :=
+  match op with
+  | ["s", "run", key] => match key.splitOn "#" with
+    | [_, n] => n.toNat?.getD 0
+    | _ => 0
+  | _ => 0
+
 def bump (l : List (String × Nat)) (k : String) : List (String × Nat) := setKV l k (lookupD l k 0 + 1)
 
 def parseTh (th : String) : List (String × String) :=
@@ -210,7 +218,12 @@ def onObs (o : Oracle) (op : List String) (cmdAfter : List String)
       (c.2 == ["stop", x] || c.2 == ["restart", x] || c.2 == ["start", x] || c.2 == ["shutdown"])).length
     let early := if o.termPending.contains x && inflight ≤ 1 then
         [s!"C08:launch-while-kill-timeout-pending {x}", s!"C06:stop-returned-before-kill-timeout {x}"] else []
-    let afterStop := afterStop ++ during ++ reqd ++ early
+    -- C08: an instance that a served restart / stop-and-start has replaced (a newer instance of the name
+    -- exists, nobody else is asking, and it was not caught inside a check-then-act window) launches nothing
+    let superseded := if actor op == x && actorSeq op > 0 && actorSeq op < lookupD o.seenSeq x 0 && inflight == 0
+          && !(o.winNames.contains x) then
+        [s!"C08:superseded-instance-launched {x}#{actorSeq op}"] else []
+    let afterStop := afterStop ++ during ++ reqd ++ early ++ superseded
     let isRe := lookupD o.launchesInst x 0 > 0
     let code := lookupD o.lastCode x 0
     let pol := if !isRe then [] else
